@@ -256,9 +256,9 @@ PROP = Prop(
           "|a*(z0+z_alpha)| < 0.99. Non-trivial = a component with >=3 finite non-constant "
           "replicates and 0<p0<1."),
     clauses=[
-        Clause("formulas", check, strategy=_cases(), quick=700, thorough=3500, quick_shards=4,
+        Clause("formulas", check, strategy=_cases(), quick=700, thorough=14000, quick_shards=4,
                min_nontrivial=200, doc="documented formulas and their corollaries"),
-        Clause("errors", check_errors, strategy=_err_cases, quick=30, thorough=60, shards=1,
+        Clause("errors", check_errors, strategy=_err_cases, quick=30, thorough=240, shards=1,
                min_nontrivial=5, doc="bc/bca need theta_hat; unknown method"),
     ],
     assumptions=["normal cdf/quantile reference: stdlib (statistics.NormalDist, math.erfc)",
